@@ -14,7 +14,10 @@ partial def go (h o : IO.FS.Stream) : IO Unit := do
   if line.isEmpty then return ()
   let s := decode line.trimAsciiEnd.toString
   let evs := scan s
-  let mut out := "E " ++ " ".intercalate (evs.map showEv)
+  -- `attributes(src)`: the string read as a bare attribute list
+  let attrs := attributesLoop (s.length + 1) s 0 []
+  let showA (a : Attr) : String := s!"{a.nameStart}:{a.nameEnd}:{match a.value with | some (_, vs, ve) => s!"{vs}:{ve}" | none => "-"}"
+  let mut out := "E " ++ " ".intercalate (evs.map showEv) ++ " | A " ++ " ".intercalate (attrs.map showA)
   for xml in [false, true] do
     for p in List.range (s.length + 3) do
       let pos : Int := (p : Int) - 1
